@@ -106,6 +106,7 @@ fn cause_of(defect: &str) -> &'static str {
         "oversized_entry" => "entry_size_not_checked",
         "unauthorised_signer" => "permissions_not_checked",
         "forged_signature" => "op_signature_not_checked",
+        "reshaped_op_with_the_signed_node_hash" => "signature_covers_an_ambiguous_node_hash",
         _ => "other",
     }
 }
@@ -411,14 +412,34 @@ impl<'a> World<'a> {
         } else {
             (op, sig_genuine)
         };
+        // the reshaped forgery: parents moved in front of the value, children emptied, signature kept
+        let mut reshaped_size = None;
+        let (op, sig_genuine) = if kind == Kind::Reshaped && !self.anyone && !children.is_empty() && bytes.len() + 32 * children.len() <= model::MAX_ENTRY {
+            let mut v = serde_json::to_value(&op).expect("op to json");
+            let mut value: Vec<u8> = vec![];
+            for c in children.iter() {
+                value.extend_from_slice(&c.0);
+            }
+            value.extend_from_slice(&bytes);
+            v["crdt_op"]["children"] = serde_json::json!([]);
+            v["crdt_op"]["value"] = serde_json::to_value(&value).expect("value to json");
+            let forged = serde_json::from_value::<RegisterOp>(v).expect("op from json");
+            assert!(forged != op, "reshaping must change the op");
+            reshaped_size = Some(value.len());
+            self.rep.fault("op_reshaped_parents_moved_into_value");
+            (forged, false)
+        } else {
+            (op, sig_genuine)
+        };
+        let reshaped = reshaped_size.is_some();
         let facts = OpFacts {
             source_actor,
             source_authorised: source_actor < self.n_auth,
             sig_genuine,
             addr_ok,
-            size: bytes.len(),
+            size: reshaped_size.unwrap_or(bytes.len()),
             hash: hash.0,
-            parents: children.iter().map(|h| h.0).collect(),
+            parents: if reshaped { Default::default() } else { children.iter().map(|h| h.0).collect() },
             kind: match kind {
                 Kind::Good if bytes.len() > model::MAX_ENTRY => "oversized",
                 Kind::Good => "good",
@@ -430,6 +451,8 @@ impl<'a> World<'a> {
                 Kind::Oversized => "oversized",
                 Kind::Readdressed => "readdressed_from_another_register",
                 Kind::Reparented => "reparented_children_rewritten",
+                Kind::Reshaped if reshaped => "reshaped_parents_moved_into_value",
+                Kind::Reshaped => "good",
             },
         };
         let canon = match self.index.get(&op) {
@@ -546,6 +569,11 @@ impl<'a> World<'a> {
             if let Some(defect) = self.pool[*k].facts.defect(self.anyone) {
                 let d = format!("r{r} admitted {} through {entry_point}", self.describe_op(*k));
                 self.violate("invalid_op_admitted", &[("cause", cause_of(defect).into()), ("shape", defect.into()), ("entry_point", entry_point.into())], d);
+                if defect == "reshaped_op_with_the_signed_node_hash" {
+                    // recorded finding: the forged node shares its hash with the node the writer signed, the CRDT's
+                    // content is no longer a function of the op set; the run ends here
+                    self.stop = true;
+                }
             }
         }
         if grow_kind == "merge" && actual.len() > before.len() {
@@ -784,6 +812,9 @@ impl<'a> World<'a> {
                             if let Some(defect) = self.pool[j].facts.defect(self.anyone) {
                                 let d = format!("client copy admitted {}", self.describe_op(j));
                                 self.violate("invalid_op_admitted", &[("cause", cause_of(defect).into()), ("shape", defect.into()), ("entry_point", "client_add_op".into())], d);
+                                if defect == "reshaped_op_with_the_signed_node_hash" {
+                                    self.stop = true;
+                                }
                             }
                         }
                         if res.is_ok() && before_len >= LIMIT && copy.ops().len() > before_len {
